@@ -6,6 +6,8 @@
 #   coverage/functions.txt   per-function statement coverage of the library under the harness
 #   coverage/unreached.txt   library functions no run entered (the blind spots)
 #   coverage/uncovered_blocks.txt  library statements no run executed (file: line ranges)
+#                              (line numbers are those of the instrumented scratch copy: exact for files the
+#                              instrumenter leaves alone, shifted in parallel.go, parallel64.go and the BSI files)
 #   coverage/summary.txt     per-package totals
 # Exit 0 always unless the build fails (2).
 set -u
